@@ -328,6 +328,11 @@ def run(prog, rep, tier, repo):
                     rep.viol('deviance-scale', key, '%s deviance: %s' % (name, '; '.join(hard)), site_of(fd.body))
                 else:
                     rep.ok('deviance-scale', key, '%s deviance typed without transcendental-argument conflicts' % name)
+        # variants whose arm was not seen as a separate return site (merged `A | B =>` arms, helpers): anchors exist, not decided
+        seen_keys = {o.key for o in rep.obs if o.rule == 'deviance-scale'}
+        for vn in variants:
+            if 'deviance-scale:%s' % vn not in seen_keys:
+                rep.undecided('deviance-scale', 'deviance-scale:%s' % vn, 'no separate return site for this variant (arms merged or delegated)', site_of(fd.body), proof=False)
     rep.floor('deviance-scale', 6, 'family variants')
 
     # ------------------------------------------------------------------ D5 inference chain
